@@ -6,6 +6,8 @@ CfgsF == {[Base EXCEPT !.naming = n, !.cap = cp] : n \in {"Num", "NumD", "Ts", "
          \cup {[Base EXCEPT !.rot = FALSE, !.size = -1, !.cap = cp] : cp \in {0, 16}}
 CfgsC == {[Base EXCEPT !.naming = n, !.clean = TRUE, !.k = km[1], !.m = km[2]] :
               n \in {"Num", "NumD", "Ts", "TsD"}, km \in {<<1, 0>>, <<0, 1>>, <<1, 1>>}}
+\* age criterion (with and without a size limit), the clock steps one second at a time
+CfgsA == {[Base EXCEPT !.naming = n, !.age = "s", !.size = sz] : n \in {"Num", "NumD", "Ts", "TsD"}, sz \in {-1, 10}}
 LensF == {9, 12}
 LensQ == {12}
 NoReset == {}
